@@ -93,59 +93,64 @@ Lemma iter_after_inv s : forall script it lo hi (l : list elem),
 Proof.
   induction script as [|st rest IH]; intros it lo hi l Hi Hlh.
   - exists lo, hi. cbn [spec_script snd iter_after]. auto.
-  - assert (Hstay : forall l1,
+  - assert (Hstay : forall it0 l1,
+      inv s it0 (Z.of_nat lo) (Z.of_nat hi) ->
       exists lo' hi',
         snd (let '(rs, l', w) := spec_script l1 lo hi rest in (RItem None :: rs, l', w))
           = (lo', hi') /\
-        inv s (iter_after it rest) (Z.of_nat lo') (Z.of_nat hi') /\
+        inv s (iter_after it0 rest) (Z.of_nat lo') (Z.of_nat hi') /\
         (lo <= lo')%nat /\ (lo' <= hi')%nat /\ (hi' <= hi)%nat).
-    { intros l1. destruct (IH it lo hi l1 Hi Hlh) as (lo' & hi' & E & H).
+    { intros it0 l1 Hi0. destruct (IH it0 lo hi l1 Hi0 Hlh) as (lo' & hi' & E & H).
       exists lo', hi'. destruct (spec_script l1 lo hi rest) as [[rs l'] wd]. auto. }
-    assert (Hfront : forall l1,
-      (lo < hi)%nat ->
+    assert (Hfront : forall it' l1,
+      inv s it' (Z.of_nat lo + 1) (Z.of_nat hi) -> (lo < hi)%nat ->
       exists lo' hi',
         snd (let '(rs, l', w) := spec_script l1 (S lo) hi rest in
              (RItem (option_map epe (nth_error l lo)) :: rs, l', w)) = (lo', hi') /\
-        inv s (iter_after (fst (iter_next it)) rest) (Z.of_nat lo') (Z.of_nat hi') /\
+        inv s (iter_after it' rest) (Z.of_nat lo') (Z.of_nat hi') /\
         (lo <= lo')%nat /\ (lo' <= hi')%nat /\ (hi' <= hi)%nat).
-    { intros l1 Hlt.
-      destruct (iter_next_some s it _ _ Hi ltac:(lia)) as (it' & Hn & Hi').
+    { intros it' l1 Hi' Hlt.
       replace (Z.of_nat lo + 1) with (Z.of_nat (S lo)) in Hi' by lia.
       destruct (IH it' (S lo) hi l1 Hi' ltac:(lia)) as (lo' & hi' & E & H1 & H2 & H3 & H4).
-      exists lo', hi'. rewrite Hn. cbn [fst].
+      exists lo', hi'.
       destruct (spec_script l1 (S lo) hi rest) as [[rs l'] wd].
       split; [exact E|]. split; [exact H1|]. lia. }
-    assert (Hback : forall l1,
-      (lo < hi)%nat ->
+    assert (Hback : forall it' l1,
+      inv s it' (Z.of_nat lo) (Z.of_nat hi - 1) -> (lo < hi)%nat ->
       exists lo' hi',
         snd (let '(rs, l', w) := spec_script l1 lo (hi - 1) rest in
              (RItem (option_map epe (nth_error l (hi - 1))) :: rs, l', w)) = (lo', hi') /\
-        inv s (iter_after (fst (iter_next_back it)) rest) (Z.of_nat lo') (Z.of_nat hi') /\
+        inv s (iter_after it' rest) (Z.of_nat lo') (Z.of_nat hi') /\
         (lo <= lo')%nat /\ (lo' <= hi')%nat /\ (hi' <= hi)%nat).
-    { intros l1 Hlt.
-      destruct (iter_next_back_some s it _ _ Hi ltac:(lia)) as (it' & Hn & Hi').
-      replace (Z.of_nat hi - 1) with (Z.of_nat (hi - 1)) in Hi', Hn by lia.
+    { intros it' l1 Hi' Hlt.
+      replace (Z.of_nat hi - 1) with (Z.of_nat (hi - 1)) in Hi' by lia.
       destruct (IH it' lo (hi - 1)%nat l1 Hi' ltac:(lia)) as (lo' & hi' & E & H1 & H2 & H3 & H4).
-      exists lo', hi'. rewrite Hn. cbn [fst].
+      exists lo', hi'.
       destruct (spec_script l1 lo (hi - 1) rest) as [[rs l'] wd].
       split; [exact E|]. split; [exact H1|]. lia. }
-    destruct st; cbn [spec_script iter_after]; unfold iter_mut_next, iter_mut_next_back.
+    destruct st; cbn [spec_script iter_after].
     + destruct (Nat.ltb_spec lo hi) as [Hlt|Hge].
-      * apply Hfront. exact Hlt.
-      * rewrite (iter_next_none s it _ _ Hi) by lia. cbn [fst]. apply Hstay.
+      * destruct (iter_next_some s it _ _ Hi ltac:(lia)) as (it' & Hn & Hi').
+        rewrite Hn. cbn [fst]. apply Hfront; assumption.
+      * rewrite (iter_next_none s it _ _ Hi) by lia. cbn [fst]. apply Hstay. exact Hi.
     + destruct (Nat.ltb_spec lo hi) as [Hlt|Hge].
-      * apply Hback. exact Hlt.
-      * rewrite (iter_next_back_none s it _ _ Hi) by lia. cbn [fst]. apply Hstay.
+      * destruct (iter_next_back_some s it _ _ Hi ltac:(lia)) as (it' & Hn & Hi').
+        rewrite Hn. cbn [fst]. apply Hback; assumption.
+      * rewrite (iter_next_back_none s it _ _ Hi) by lia. cbn [fst]. apply Hstay. exact Hi.
     + destruct (IH it lo hi l Hi Hlh) as (lo' & hi' & E & H).
       exists lo', hi'. destruct (spec_script l lo hi rest) as [[rs l'] wd]. auto.
     + destruct (IH it lo hi l Hi Hlh) as (lo' & hi' & E & H).
       exists lo', hi'. destruct (spec_script l lo hi rest) as [[rs l'] wd]. auto.
     + destruct (Nat.ltb_spec lo hi) as [Hlt|Hge].
-      * apply Hfront. exact Hlt.
-      * rewrite (iter_next_none s it _ _ Hi) by lia. cbn [fst]. apply Hstay.
+      * destruct (iter_mut_next_some s it _ _ Hi ltac:(lia)) as (it' & Hn & Hi').
+        rewrite Hn. cbn [fst]. apply Hfront; assumption.
+      * destruct (iter_mut_next_none s it _ _ Hi ltac:(lia)) as (Hn & Hi').
+        rewrite Hn. cbn [fst]. apply Hstay. exact Hi'.
     + destruct (Nat.ltb_spec lo hi) as [Hlt|Hge].
-      * apply Hback. exact Hlt.
-      * rewrite (iter_next_back_none s it _ _ Hi) by lia. cbn [fst]. apply Hstay.
+      * destruct (iter_mut_next_back_some s it _ _ Hi ltac:(lia)) as (it' & Hn & Hi').
+        rewrite Hn. cbn [fst]. apply Hback; assumption.
+      * destruct (iter_mut_next_back_none s it _ _ Hi ltac:(lia)) as (Hn & Hi').
+        rewrite Hn. cbn [fst]. apply Hstay. exact Hi'.
 Qed.
 
 (* ---- Debug for Iter -------------------------------------------------------------------------------- *)
